@@ -30,6 +30,8 @@ def lit_value(l):
             return int(v)
         if lk == 'float':
             return float(v)
+        if lk == 'tiny':
+            return float(v) * 1e-12
         if lk == 'bool':
             return bool(v)
         if lk == 'npf64':
